@@ -203,6 +203,15 @@ func init() {
 			o.Count("iterx:" + kind)
 			o.Nontrivial(line)
 		}
+		// the side to move is being mated, and the quiescence leaves see the mate beyond the depth (score M-k with k > depth)
+		for i := 0; i < k/8+3; i++ {
+			if f, ok := matedBeyondDepth(r); ok {
+				line := fmt.Sprintf("published iterx turochamp %d %s ; ", 2+r.Intn(2), f)
+				o.do(line)
+				o.Count("iterx:mated-beyond-depth")
+				o.Nontrivial(line)
+			}
+		}
 		for i := 0; i < k/8+2; i++ {
 			start, moves, _ := randomLine(r, 6)
 			if i%2 == 0 {
@@ -225,6 +234,27 @@ func init() {
 			o.Nontrivial(line)
 		}
 	})
+}
+
+// matedBeyondDepth looks for a sparse position in which the TUROCHAMP wiring, searching one ply, already reports that the side
+// to move is mated in more than one ply (its quiescence follows mating moves beyond the horizon).
+func matedBeyondDepth(r *rand.Rand) (string, bool) {
+	s := histEngines()["turochamp"](&gate{})
+	for tries := 0; tries < 400; tries++ {
+		f, ok := synthetic(r)
+		if !ok {
+			continue
+		}
+		b := boardFromLine(f, nil)
+		if pieceCount(b) > 5 || b.Position().IsChecked(b.Turn()) {
+			continue
+		}
+		_, sc, _, err := s.Search(context.Background(), &search.Context{TT: search.NoTranspositionTable{}}, b, 1)
+		if err == nil && sc.Type == eval.MateInX && sc.Mate < -1 {
+			return f, true
+		}
+	}
+	return "", false
 }
 
 // wiredEngine builds an engine around ONE search object of the given kind (as the binaries do), noise off, no hash table.
